@@ -90,6 +90,7 @@ type Event struct {
 	N    int    `json:"n,omitempty"`
 	Who  int    `json:"who,omitempty"` // jump: 0 token, 1 verifier
 	// aimed fault: realise this signed distance (token - verifier) at delivery
+	Alias     int    `json:"alias,omitempty"` // TOTP: move the clock to an instant that aliases the previous TOTP call's (second, period) under truncation / folding
 	Aimed     bool   `json:"aimed,omitempty"`
 	Aim       int    `json:"aim,omitempty"`
 	PhaseS    uint64 `json:"phase_s,omitempty"` // seconds into the step (mod period)
@@ -528,6 +529,9 @@ func genEvent(t *rapid.T, prop string, accts []Account) Event {
 			e.Kind = "press"
 			aim()
 			e.Net = genNet(t, unit, false)
+			if weighted(t, "aliasP?", 8, 1) == 1 {
+				e.Alias = rapid.IntRange(1, 4000).Draw(t, "aliasP")
+			}
 		case 1:
 			e.Kind = "jump"
 			e.Who = rapid.IntRange(0, 1).Draw(t, "who")
@@ -544,6 +548,9 @@ func genEvent(t *rapid.T, prop string, accts []Account) Event {
 			e.Kind = "display"
 			aim()
 			e.N = rapid.IntRange(0, 6).Draw(t, "boundaryOff") // index into boundary offsets
+			if weighted(t, "alias?", 5, 1) == 1 {
+				e.Alias = rapid.IntRange(1, 4000).Draw(t, "alias")
+			}
 		}
 	case "ocra":
 		switch weighted(t, "ocraEv", 10, 1, 1, 1) {
